@@ -4,6 +4,7 @@ import Driver.Crash
 import Driver.HostFileMode
 import Driver.LinMode
 import Driver.LruMode
+import Driver.Conform
 import Qv.Spec.Image
 
 open Qv.Driver
@@ -47,6 +48,11 @@ def main (args : List String) : IO UInt32 := do
   | ["lru", path] =>
     let lines ← IO.FS.lines path
     Qv.Driver.LruMode.runLru lines stdout
+    return 0
+  | ["conform", path] =>
+    let lines ← IO.FS.lines path
+    let dir := (System.FilePath.parent path).map (·.toString) |>.getD "."
+    Qv.Driver.Conform.runConform dir lines stdout
     return 0
   | ["hostfile", path] =>
     let lines ← IO.FS.lines path
